@@ -19,8 +19,8 @@ import (
 	"github.com/fiorix/go-diameter/diam"
 	"github.com/fiorix/go-diameter/diam/dict"
 
-	chf_context "github.com/free5gc/chf/internal/context"
 	chf_cgf "github.com/free5gc/chf/internal/cgf"
+	chf_context "github.com/free5gc/chf/internal/context"
 	"github.com/free5gc/chf/internal/sbi"
 	"github.com/free5gc/chf/pkg/abmf"
 	"github.com/free5gc/chf/pkg/factory"
